@@ -87,6 +87,7 @@ impl CsrSegment {
     }
 
     pub fn persist(&mut self, pager: &mut Pager) -> Result<()> {
+        let _vo = vowner!("csr");
         // Build reverse index if we have edges but no reverse index
         if !self.edges.is_empty() && self.in_edges.is_empty() {
             let mut edges_with_src: Vec<EdgeKey> = self
